@@ -437,7 +437,7 @@ func checkC18(c *Ctx) *report.Result {
 		}
 		r.Ob("M-wave", len(bad) == 0 && n0 > 0, "wave RAM is plain and untouched by a trigger whenever NR52 reports channel 3 off", handlerPos(probe), fmt.Sprintf("%d flag valuations with NR52 bit 2 = 0 examined; %s", n0, strings.Join(bad, "; ")))
 	}
-	r.Rule("M-status", "NR52 bits 0-3 are the channel status as C19 decides it (S-on, S-dac, S-power, S-sweep, S-length, S-off, S-extra, S-neg re-stated)")
-	adopt(r, c.sibling("C19"), map[string]string{"S-on": "M-status", "S-dac": "M-status", "S-power": "M-status", "S-sweep": "M-status", "S-length": "M-status", "S-off": "M-status", "S-extra": "M-status", "S-neg": "M-status"}, "a channel left on or off against the documented causes makes NR52 read a wrong status bit")
+	r.Rule("M-status", "NR52 bits 0-3 are the channel status as C19 decides it (S-on, S-dac, S-power, S-sweep, S-length, S-off, S-extra, S-neg, S-seq re-stated)")
+	adopt(r, c.sibling("C19"), map[string]string{"S-on": "M-status", "S-dac": "M-status", "S-power": "M-status", "S-sweep": "M-status", "S-length": "M-status", "S-off": "M-status", "S-extra": "M-status", "S-neg": "M-status", "S-seq": "M-status"}, "a channel left on or off against the documented causes makes NR52 read a wrong status bit")
 	return r
 }
